@@ -569,6 +569,15 @@ theorem step_noCommon {st : St} (hi : Inv st) (hnc : NoCommon st.db.users) (op :
     have hnc' : NoCommon (u.auth.foldl (fun s e => invalidateHost s e.2) st).db.users := by rw [h2]; exact hnc
     exact put_setUser_noCommon h1 hnc' { u with auth := [] } true
       (recInv_put_same h1.recs ⟨u, hu', rfl, rfl⟩) (fun m hm => ⟨u, hu', rfl, hm⟩)
+  | logout id =>
+    simp only [step]
+    apply withUser_noCommon hnc
+    intro u hu huid
+    dsimp only [clearAuth]
+    obtain ⟨h1, h2, h3⟩ := clearAuth_fold_inv hi u.auth
+    have hu' : u ∈ (u.auth.foldl (fun s e => invalidateHost s e.2) st).db.users := by rw [h2]; exact hu
+    have hnc' : NoCommon (u.auth.foldl (fun s e => invalidateHost s e.2) st).db.users := by rw [h2]; exact hnc
+    exact noCommon_of_masksFrom hnc' (masksFrom_put (fun m hm => ⟨u, hu', rfl, hm⟩))
   | rename id name =>
     simp only [step]
     apply withUser_noCommon hnc
@@ -652,6 +661,13 @@ theorem step_noCommon {st : St} (hi : Inv st) (hnc : NoCommon st.db.users) (op :
   | lookup s =>
     simp only [step]
     exact noCommon_of_masksFrom hnc (getUserId_masks st s)
+  | pruned id kept =>
+    simp only [step]
+    apply withUser_noCommon hnc
+    intro u hu huid
+    split
+    · exact noCommon_of_masksFrom hnc (masksFrom_put (fun m hm => ⟨u, hu, rfl, hm⟩))
+    · exact hnc
   | order id masks =>
     simp only [step]
     apply withUser_noCommon hnc
